@@ -41,7 +41,7 @@ func c08Events(ctx sdk.Context) []string {
 	return out
 }
 
-func c08Run(env *Env, op int) (res []string) {
+func c08Run(env *Env, op int, texts [3]string) (res []string) {
 	defer func() {
 		if r := recover(); r != nil {
 			res = append(res, "panic")
@@ -68,14 +68,15 @@ func c08Run(env *Env, op int) (res []string) {
 				res = append(res, v.Address.String()+"="+v.ShareCount.String())
 			}
 		}
-	case 2: // evidence tally: two validators report one error, the third another
+	case 2: // evidence tally: every partition of the three validators over three distinct reports
 		msg := &evmtypes.Message{TurnstoneID: "compass-" + ChainA, ChainReferenceID: ChainA, Assignee: Vals[0].String(), AssigneeRemoteAddress: models.EthAddrs[0], AssignedAtBlockHeight: sdkmath.NewInt(100),
 			Action: &evmtypes.Message_SubmitLogicCall{SubmitLogicCall: &evmtypes.SubmitLogicCall{HexContractAddress: "0x6666666666666666666666666666666666666666", Payload: []byte{1}, Deadline: 1000, SenderAddress: []byte("sender-address-20byt"), Retries: 2}}}
 		id, err := env.Consensus.PutMessageInQueue(env.Ctx, c06Queue, msg, &consensus.PutOptions{RequireSignatures: true, PublicAccessData: []byte("tx")})
 		if err != nil {
 			panic(err)
 		}
-		for v, text := range []string{"boom", "bang", "boom"} {
+		for v := 0; v < 3; v++ {
+			text := texts[v]
 			proof, _ := codectypes.NewAnyWithValue(&evmtypes.SmartContractExecutionErrorProof{ErrorMessage: text})
 			if err := env.Consensus.AddMessageEvidence(env.Ctx, Vals[v], &consensustypes.MsgAddEvidence{Proof: proof, MessageID: id, QueueTypeName: c06Queue}); err != nil {
 				panic(err)
@@ -107,6 +108,12 @@ func c08Run(env *Env, op int) (res []string) {
 
 func VerifC08_Twin() {
 	op := sym.Choice("operation", 4)
+	var texts [3]string
+	if op == 2 {
+		for v := range texts {
+			texts[v] = []string{"boom", "bang", "bust"}[sym.Choice("report", 3)]
+		}
+	}
 	var res [2][]string
 	var ev [2][]string
 	var envs [2]*Env
@@ -123,7 +130,7 @@ func VerifC08_Twin() {
 			_, _ = env.Metrix.Validators(qctx, nil)
 		}
 		sym.MapOrder(node == 1)
-		res[node] = c08Run(env, op)
+		res[node] = c08Run(env, op, texts)
 		sym.MapOrder(false)
 		ev[node] = c08Events(env.Ctx)
 		envs[node] = env
